@@ -228,6 +228,12 @@ fn stmt_effective_class(
             return ExprClass::Impure;
         }
 
+        // A callee that assigns a variable of an enclosing scope has an effect its
+        // caller can observe, even when every statement in it is otherwise pure.
+        if !summary.transitive_capture_writes.is_empty() {
+            return ExprClass::Impure;
+        }
+
         class.join(summary.transitive_class)
     })
 }
